@@ -260,6 +260,9 @@ def export_model_stream(ctx, cases):
                 rep.fail("pred", case, {"why": f"{mo['module']}: a well-formed elaborated module was exported with defects", "problems": r["problems"][:5]})
             elif not r["ewf"]:
                 rep.fail("corr", case, f"{mo['module']}: elaboration left a module that does not satisfy EWF (the hypothesis of export_module_wf)")
+            elif r.get("nf") is False:
+                rep.fail("corr", case, f"{mo['module']}: elaboration left a connection that is not in the resolver's normal form (a signal, a proper slice of a signal, a "
+                                       "non-empty concatenation of those): re-elaborating the imported module would change it (C11)")
             elif r["export_equal"] is not True or not r["same_instance_count"]:
                 rep.fail("corr", case, f"{mo['module']}: the model's export of the elaborated module is not what the exporter wrote ({r['export_equal']})")
 
